@@ -80,8 +80,7 @@ package openapi3gen
 //@ extend func (*Generator).generateWithoutSaving
 //@   defines result.0 == generatedFor(t, name) && ((result.1 != nil) <==> generationFails(t, name))
 //@ func (*Generator).generateSchemaRefFor
-//@   requires g != nil
-//@   assuming !wlocked[ptr(typeInfosMutex)] && rlocked[ptr(typeInfosMutex)] == 0 && t != nil && g.Types != nil && g.SchemaRefs != nil
+//@   assuming g != nil && !wlocked[ptr(typeInfosMutex)] && rlocked[ptr(typeInfosMutex)] == 0 && t != nil && g.Types != nil && g.SchemaRefs != nil
 //@   modifies *
 //@   ensures @C18 [cached-schema-is-the-one-generated-for-this-type] old(g.Types[t]) != nil && old(g.opts.schemaCustomizer) == nil ==> result.0 == old(g.Types[t]) && result.1 == nil
 //@   ensures @C18 [miss-generates-for-this-type] (old(g.Types[t]) == nil || old(g.opts.schemaCustomizer) != nil) && !generationFails(t, name) ==> result.0 == generatedFor(t, name)
